@@ -283,7 +283,7 @@ impl<'a> BoundStatement<'a> {
     }
 }
 
-fn substitute_parameters(sql: &str, params: &[OwnedValue]) -> eyre::Result<String> {
+pub(crate) fn substitute_parameters(sql: &str, params: &[OwnedValue]) -> eyre::Result<String> {
     use crate::sql::token::Parameter;
     use crate::sql::{Lexer, Token};
 
